@@ -3,7 +3,9 @@
 DUT: luna.gateware.architecture.car.PHYResetController(clock_frequency, reset_length, stop_length, power_on_reset).
 Configuration: cycle counts N (reset) and M (stop) in 1..300, chosen directly; the lengths handed to the DUT are
 (n - 0.5) / f so that the documented ceil(length * f) is n for any rounding of the float arithmetic.  M <, =, > N,
-including pairs that straddle a power of two (the counter-width trap).
+including pairs that straddle a power of two (the counter-width trap).  Also: durations that are a whole number of cycles
+(power-of-two clocks, where the arithmetic is exact and the count must be n, not n + 1), the constructor defaults
+(2 us at 60 MHz, individually overridden), and lengths of 301..1500 cycles.
 Workload: trigger pulses at random times, while idle, during reset, during the stop phase, held high for many
 cycles (back-to-back resets), one cycle after the return to idle.
 Monitor: samples trigger / phy_reset / phy_stop every cycle and cuts the trace into pulses.
@@ -13,6 +15,7 @@ at power-on) and every such trigger starts one within 2 cycles; the controller i
 N + M + 3 cycles after the trigger (bounded liveness) and honours the next trigger.
 Not judged: the absolute latency between trigger and the first reset cycle beyond "within 2 cycles".
 """
+from fractions import Fraction
 from rv.sim import Bench
 
 PROPERTY = "C54"
@@ -20,15 +23,29 @@ CASES = {"quick": 400, "thorough": 8000}
 RULE = ("case = (N, M in 1..300, clock 1e6..120e6, power_on_reset, trigger script of 6-20 triggers incl. held and "
         "mid-sequence ones); non-trivial = >= 3 complete sequences observed; distinct = hash(config, trigger cycles)")
 REQUIRED_BINS = ["stop_gt_reset", "stop_lt_reset", "stop_eq_reset", "stop_crosses_pow2_of_reset", "trigger_during_reset",
-                 "trigger_during_stop", "trigger_held", "power_on", "no_power_on", "n_is_1", "m_is_1", "max_length_exact_power_of_two"]
+                 "trigger_during_stop", "trigger_held", "power_on", "no_power_on", "n_is_1", "m_is_1", "max_length_exact_power_of_two",
+                 "whole_cycle_durations", "constructor_defaults", "length_gt_300"]
 REQUIRED_EVENTS = ["reset_pulses_measured", "stop_tails_measured", "cycles_monitored", "triggers_while_idle"]
 ASSUMPTIONS = ["cycle counts are set through lengths (n-0.5)/f so that ceil() is unambiguous",
                "trigger-to-reset latency is only required to be <= 2 cycles"]
 
 
+def cycles_covering(length, f):
+    """Cycle counts that 'the configured duration' may mean for a duration in seconds at clock f: the smallest count whose
+    time covers the duration, computed exactly; when duration * f is within float rounding of a whole number both
+    neighbouring readings are accepted (2 us at 60 MHz is 120 cycles, but 2e-6 * 60e6 is not exactly 120 in binary)."""
+    from math import ceil
+    x = Fraction(length) * Fraction(f)
+    tol = x * Fraction(1, 10 ** 12)
+    return {max(1, ceil(x - tol)), max(1, ceil(x + tol))}
+
+
 def run_case(rng, tier, res):
     from luna.gateware.architecture.car import PHYResetController
-    kind = rng.choice(["gt", "gt", "lt", "eq", "pow2", "pow2", "small", "exact_pow2", "exact_pow2"])
+    kind = rng.choice(["gt", "gt", "lt", "eq", "pow2", "pow2", "small", "exact_pow2", "exact_pow2", "dyadic", "dyadic", "special"])
+    exact = None       # (clock, reset_length, stop_length) handed over as they are, for the kinds that do not use (n-0.5)/f
+    if kind == "special":
+        kind = rng.choice(["defaults", "defaults", "long"])
     if kind == "gt":
         n = rng.randint(1, 100); m = rng.randint(n + 1, 300)
     elif kind == "lt":
@@ -45,11 +62,50 @@ def run_case(rng, tier, res):
         small = rng.choice([big, max(1, big - 1), max(1, big // 2), rng.randint(1, big)])
         n, m = (big, small) if rng.random() < 0.5 else (small, big)
         res.bin("max_length_exact_power_of_two")
+    elif kind == "dyadic":
+        # durations that are a whole number of cycles: the clock is a power of two (Hz) and the lengths are n / f, so
+        # 1/f, n/f and their quotient are exact in binary floating point and "the configured number of cycles" is n itself
+        n = rng.choice([1, 2, 3, rng.randint(1, 40), rng.randint(1, 300)]); m = rng.choice([1, 2, rng.randint(1, 40), rng.randint(1, 300)])
+        fd = float(1 << rng.randint(20, 26))
+        exact = (fd, n / fd, m / fd)
+        assert Fraction(n / fd) * Fraction(fd) == n and Fraction(m / fd) * Fraction(fd) == m
+        res.bin("whole_cycle_durations")
+    elif kind == "defaults":
+        # constructor defaults (the configuration every luna platform uses): the cycle count is the smallest that covers
+        # the duration; where the duration is a whole number of cycles up to float rounding, both neighbours are accepted
+        n = m = None
+        res.bin("constructor_defaults")
+    elif kind == "long":
+        n = rng.randint(301, 1500); m = rng.randint(301, 1500)
+        res.bin("length_gt_300")
     else:
         n = rng.randint(1, 3); m = rng.randint(1, 6)
     f = rng.choice([1e6, 12e6, 48e6, 60e6, 100e6, 120e6, rng.uniform(1e6, 120e6)])
     por = rng.random() < 0.5
-    dut = PHYResetController(clock_frequency=f, reset_length=(n - 0.5) / f, stop_length=(m - 0.5) / f, power_on_reset=por)
+    if kind == "defaults":
+        kw = {}
+        if rng.random() < 0.5:
+            kw["power_on_reset"] = por
+        else:
+            por = True
+        which = rng.choice(["all", "clock", "reset", "stop"])
+        f, rl, sl = 60e6, 2e-6, 2e-6
+        if which == "clock":
+            f = kw["clock_frequency"] = rng.choice([12e6, 48e6, 60e6, 100e6])
+        elif which == "reset":
+            rl = kw["reset_length"] = rng.choice([1e-6, 2e-6, 5e-6, 0.5e-6])
+        elif which == "stop":
+            sl = kw["stop_length"] = rng.choice([1e-6, 2e-6, 5e-6, 0.5e-6])
+        dut = PHYResetController(**kw)
+        n_ok, m_ok = cycles_covering(rl, f), cycles_covering(sl, f)
+        n, m = min(n_ok), min(m_ok)
+    elif exact:
+        f = exact[0]
+        dut = PHYResetController(clock_frequency=f, reset_length=exact[1], stop_length=exact[2], power_on_reset=por)
+        n_ok, m_ok = {n}, {m}
+    else:
+        dut = PHYResetController(clock_frequency=f, reset_length=(n - 0.5) / f, stop_length=(m - 0.5) / f, power_on_reset=por)
+        n_ok, m_ok = {n}, {m}
     res.desc = {"N": n, "M": m, "clock": f, "power_on_reset": por, "triggers": []}
     res.sig(n, m, por)
     res.bin("stop_gt_reset" if m > n else "stop_lt_reset" if m < n else "stop_eq_reset")
@@ -61,7 +117,7 @@ def run_case(rng, tier, res):
     if m == 1:
         res.bin("m_is_1")
     seq = n + m
-    budget = seq * rng.randint(6, 14) + 200
+    budget = seq * (rng.randint(4, 6) if kind == "long" else rng.randint(6, 14)) + 200
     b = Bench(dut, domain="sync", freq=60e6, max_cycles=budget + 50)
     b.watch(dut.trigger, dut.phy_reset, dut.phy_stop)
 
@@ -101,12 +157,12 @@ def run_case(rng, tier, res):
                 res.bin("trigger_during_reset")
             if rst:
                 st["count"] += 1
-                if st["count"] > n + 8:
+                if st["count"] > max(n_ok) + 8:
                     res.violation("reset_never_ends", "N=%d M=%d phy_reset still high after %d cycles" % (n, m, st["count"]))
                     st["stuck"] = True
             else:
                 res.event("reset_pulses_measured")
-                if st["count"] != n:
+                if st["count"] not in n_ok:
                     res.violation("reset_length_wrong", "N=%d M=%d phy_reset pulse lasted %d cycles" % (n, m, st["count"]))
                 if stop:
                     st["phase"], st["count"] = "stop", 1
@@ -121,15 +177,15 @@ def run_case(rng, tier, res):
                 st["phase"], st["count"] = "reset", 1
             elif stop:
                 st["count"] += 1
-                if st["count"] > m + 8:
+                if st["count"] > max(m_ok) + 8:
                     res.violation("stop_never_ends", "N=%d M=%d phy_stop still high %d cycles after reset fell (never returns to idle)" % (n, m, st["count"]))
                     st["stuck"] = True
             else:
                 res.event("stop_tails_measured")
-                if st["count"] != m:
+                if st["count"] not in m_ok:
                     res.violation("stop_length_wrong", "N=%d M=%d phy_stop stayed %d cycles after reset" % (n, m, st["count"]))
                 total = b.cycle - st["since_trigger"]
-                if total > n + m + 3:
+                if total > max(n_ok) + max(m_ok) + 3:
                     res.violation("sequence_too_long", "N=%d M=%d %d cycles from trigger to idle" % (n, m, total))
                 st["phase"] = "idle"
                 st["seqs"] += 1
